@@ -68,8 +68,9 @@ class Contract(object):
                  raises_ensures=None, returns=None, assigns=(), loops=None, inline=(), specns=None,
                  prop=None, note='', pure=False, may_raise_any=False, trusted=False, exc_ensures=(),
                  setup=None, model=None, raises_local=None, raises_only_if=None, heavy=False, ghost=None, exc_fields=None,
-                 at_call=None, trace_ensures=False):
+                 at_call=None, trace_ensures=False, frame=None):
         self.target = target
+        self.frame = frame              # {'shared': [exprs], 'private': [exprs], 'may_store': [param names]}: confinement frame
         self.trace_ensures = trace_ensures   # ensures speak about this call's own trace: proved, not assumed by callers
         self.at_call = at_call or {}    # callee name -> spec expressions over the CALLER's state, with _kw / _args bound
         self.exc_fields = exc_fields or {}    # fields known of an exception raised by this function (callers)
@@ -548,6 +549,9 @@ class Engine(object):
         if oc is not None and '__setitem__' in oc.methods and not isinstance(oc.methods['__setitem__'], str):
             return oc.methods['__setitem__'](self.interp, ctx, v, idx, val)
         ctx.writes.append((v.z, '[]', getattr(node, 'lineno', None)))
+        if getattr(ctx, 'frame_mark', None) is not None:
+            from .state import SHAREDP
+            ctx.frame_conds.append((Z.Not(SHAREDP(v.z)), 'item of a shared object stored (line %s)' % getattr(node, 'lineno', '?')))
 
     def opaque_int(self, ctx, v, node):
         ok = Z.func('obj_intable', Z.Obj, Z.Bool)(v.z)
@@ -1008,6 +1012,8 @@ class Engine(object):
                 fr.entry_ghosts[gname] = self.freeze(ctx, I.ev(ctx, sfr, ast.parse(gexpr, mode='eval').body))
             finally:
                 ctx.no_branch -= 1
+        if c.frame is not None:
+            self._frame_setup(ctx, c, sfr, loc)
         old = (ctx.snapshot_heap(), dict(loc), dict(ctx.attr))
         try:
             try:
@@ -1022,6 +1028,55 @@ class Engine(object):
             raise Unsupported('break/continue outside a loop')
         self._exit_normal(ctx, c, fr, result, old, fname)
 
+    def _frame_setup(self, ctx, c, sfr, loc):
+        """Confinement frame (C12): objects named 'shared' are visible to other requests; storing
+        into them, or into any heap object that existed before the call (other than the parameters
+        listed under may_store), violates the frame."""
+        from .state import SHAREDP
+        I = self.interp
+        ctx.frame_conds = []
+        ctx.frame_ok = set()
+        for n in c.frame.get('may_store', ()):
+            v = loc.get(n)
+            if isinstance(v, VRef):
+                ctx.frame_ok.add(v.rid)
+                h = ctx.heap.get(v.rid)
+                # containers the object owns (its list / set / dict fields) belong to it
+                for fv in (getattr(h, 'fields', None) or {}).values():
+                    if isinstance(fv, VRef):
+                        ctx.frame_ok.add(fv.rid)
+        for kind in ('shared', 'private'):
+            for text in c.frame.get(kind, ()):
+                ctx.no_branch = getattr(ctx, 'no_branch', 0) + 1
+                try:
+                    v = I.resolve(ctx, I.ev(ctx, sfr, ast.parse(text, mode='eval').body))
+                finally:
+                    ctx.no_branch -= 1
+                if isinstance(v, VOpt):
+                    v = v.val
+                q = I._as_seq(ctx, v) if not isinstance(v, VObj) else None
+                if q is not None:
+                    k = z3.Int('q!frame!i')
+                    body = SHAREDP(q[0][k]) if kind == 'shared' else Z.Not(SHAREDP(q[0][k]))
+                    ctx.assume(z3.ForAll([k], z3.Implies(z3.And(k >= 0, k < z3.Length(q[0])), body)))
+                elif isinstance(v, VObj):
+                    ctx.assume(SHAREDP(v.z) if kind == 'shared' else Z.Not(SHAREDP(v.z)))
+                elif isinstance(v, VRef):
+                    if kind == 'private':
+                        ctx.frame_ok.add(v.rid)
+                elif not isinstance(v, VNone):
+                    raise ContractError('frame entry %r of %s is not an object or a sequence of objects' % (text, c.target))
+        ctx.frame_mark = ctx.next_rid
+
+    def _frame_exit(self, ctx, c, fname, node=None):
+        if c.frame is None:
+            return
+        conds = getattr(ctx, 'frame_conds', [])
+        goal = Z.And(*[g for g, _ in conds]) if conds else Z.TRUE
+        ctx.oblige('%s/frame' % fname, goal, 'K', node,
+                   note='confinement: stores only into objects of this call / this request; checked stores: %s'
+                        % ('; '.join(w for _, w in conds) or 'none'))
+
     def _post_frame(self, fr, old, extra):
         sfr = self.spec_frame(fr, extra)
         sfr.old = (old[0], old[1], old[2])
@@ -1029,6 +1084,7 @@ class Engine(object):
 
     def _exit_normal(self, ctx, c, fr, result, old, fname):
         sfr = self._post_frame(fr, old, {'result': result})
+        self._frame_exit(ctx, c, fname)
         for i, e in enumerate(c.ensures):
             g = self.eval_spec(ctx, sfr, e)
             ctx.oblige('%s/ensures[%d]' % (fname, i), g, 'K', None,
@@ -1058,6 +1114,7 @@ class Engine(object):
         lineno = getattr(rs.node, 'lineno', None)
         sfr = self._post_frame(fr, old, {'_exc': exc})
         ctx.raise_frame = fr
+        self._frame_exit(ctx, c, fname, rs.node)
         matches = []
         for cls, cond in c.raises.items():
             m = Z.simp(I.exc_isinstance(ctx, exc, cls))
